@@ -48,6 +48,7 @@ type StreamWriter struct {
 // This StreamWriter must be returned back using ReturnStreamWriter.
 func NewStreamWriter(w io.Writer) *StreamWriter {
 	streamWriter := streamWriterPool.Get().(*StreamWriter)
+	verifPool("swriter", "get", streamWriter, streamWriter.writer == nil)
 	streamWriter.writer = w
 	return streamWriter
 }
@@ -56,6 +57,7 @@ func NewStreamWriter(w io.Writer) *StreamWriter {
 // system.
 func returnStreamWriter(sw *StreamWriter) {
 	sw.writer = nil
+	verifPool("swriter", "put", sw, sw.writer == nil)
 	streamWriterPool.Put(sw)
 }
 
